@@ -254,8 +254,16 @@ impl<'result> CustomTypeParser<'result> {
         // See rust-lang/rust#149266
         itertools::Itertools::collect_array::<N>(self.get_type_parameters()?).ok_or_else(|| {
             // unwrap(): get_type_parameters() already worked above, so it will work here as well.
-
-            let actual_parameter_count = backup.get_type_parameters().unwrap().count();
+            let mut actual_parameter_count = 0;
+            for parameter in backup.get_type_parameters().unwrap() {
+                // A malformed parameter is more specific than the count mismatch. It also has to end
+                // the counting: once a parameter fails to parse without consuming any input (most
+                // notably at the end of input), the iterator keeps yielding that error forever.
+                if let Err(err) = parameter {
+                    return err;
+                }
+                actual_parameter_count += 1;
+            }
 
             CustomTypeParseError::InvalidParameterCount {
                 actual: actual_parameter_count,
